@@ -240,6 +240,9 @@ def r3_wiring(chk, repo):
     icfg = cfg_of(init)
     inf = [n for n in icfg.stmt_nodes() if isinstance(n.stmt, ast.Assign) and norm(n.stmt.targets[0]) == "self.max_messages" and "inf" in norm(n.stmt.value)]
     chk.check(bool(inf) and all(("self.lazy", True) in icfg.guard_facts(n) for n in inf), "C13.R3", init, None, "unbounded capacity outside lazy mode", site_text="Mailbox.__init__: infinite capacity only in lazy mode", nontrivial=False)
+    ar_f = repo.func("Mailbox.add_reader", MAILBOX)
+    subs = [c for c in calls_in(ar_f.node) if call_name(c) == "self.subscribe"]
+    chk.check(len(subs) == 1 and "can_drive" in ar_f.params and kw(subs[0], "can_drive") is not None and norm(kw(subs[0], "can_drive")) == "can_drive", "C13.R3", ar_f, stmt_of(subs[0]) if subs else None, "add_reader does not hand its can_drive argument on to subscribe(): every reader thread (savers included) registers as a driver, so a lazy pipeline keeps producing after the consumer stopped", site_text="Mailbox.add_reader: subscribe(can_drive=can_drive)", site={"function": ar_f.qualname, "rule": "can_drive relayed"})
     rd = repo.func("Mailbox.subscribe", MAILBOX)
     ap = [c for c in calls_in(rd.node) if norm(c.func) == "self._subscriber_can_drive.append"]
     chk.check(len(ap) == 1 and norm(ap[0].args[0]) == "can_drive", "C13.R3", rd, None, "subscriber's drive flag is not recorded", site_text="subscribe: _subscriber_can_drive.append(can_drive)")
@@ -305,6 +308,8 @@ def r5_demand(chk, repo):
 
 
 WITNESSES = [
+    W("add_reader drops can_drive", "C13.R3", MAILBOX,
+      "args=(self.subscribe(can_drive=can_drive),)", "args=(self.subscribe(),)"),
     W("plugin capacity looked up under the mailbox name", "C13.R3", THREADED,
       "if d in components.plugins:\n                max_m = components.plugins[d].max_messages", "if m.name in components.plugins:\n                max_m = components.plugins[m.name].max_messages"),
     W("plugin capacity clamped to the context default", "C13.R3", THREADED,
